@@ -31,3 +31,13 @@ def mv_rows_to_planes(vals):
     """vals: list (rows) of lists (lanes) of 3-bit codes -> uint8 (rows, 3, nbytes)"""
     from .enc import to_bp
     return to_bp(np.array(vals, dtype=np.uint8))
+
+
+import random as _random
+
+
+class KRandom(_random.Random):
+    """random.Random seeded from a string key that it remembers: a witness stores the key and replays exactly that case"""
+    def __init__(self, key):
+        super().__init__(key)
+        self.key = key
